@@ -11,6 +11,7 @@ import (
 	"fmt"
 	"os"
 	"path/filepath"
+	"strings"
 
 	"github.com/mna/pigeon/ast"
 	"github.com/mna/pigeon/builder"
@@ -59,41 +60,93 @@ func main() {
 		}
 		return "0"
 	}
+	type variant struct {
+		name                 string
+		nolint, opt, bl, st  bool
+		lrMode               int
+	}
+	var vs []variant
 	for _, nolint := range []bool{false, true} {
 		for _, opt := range []bool{false, true} {
 			for _, bl := range []bool{false, true} {
-				for _, lr := range []bool{false, true} {
+				// lr: 0 = no left recursion, flag off; 1 = left-recursive grammar, flag on;
+				// 2 = -support-left-recursion given for a grammar WITHOUT left recursion (directory suffix x1):
+				// the option is legal for every grammar, the output must compile (and equals the l0 code)
+				for _, lrMode := range []int{0, 1, 2} {
 					for _, st := range []bool{false, true} {
-						var buf bytes.Buffer
-						buf.WriteString("package rt\n")
-						g := probe(st, lr)
-						err := builder.BuildParser(&buf, g,
-							builder.Optimize(opt), builder.BasicLatinLookupTable(bl),
-							builder.SupportLeftRecursion(lr), builder.Nolint(nolint))
-						if err != nil {
-							fmt.Fprintln(os.Stderr, "BuildParser:", err)
-							os.Exit(1)
+						name := fmt.Sprintf("o%sb%sl%ss%s", b2s(opt), b2s(bl), b2s(lrMode == 1), b2s(st))
+						if lrMode == 2 {
+							name += "x1"
 						}
-						// same options as /repo/main.go
-						code, err := imports.Process("filename", buf.Bytes(), &imports.Options{TabWidth: 8, TabIndent: true, Comments: true, Fragment: true})
-						if err != nil {
-							fmt.Fprintln(os.Stderr, "imports.Process:", err)
-							os.Exit(1)
-						}
-						name := fmt.Sprintf("o%sb%sl%ss%s", b2s(opt), b2s(bl), b2s(lr), b2s(st))
 						if nolint {
 							name += "n1"
 						}
-						dir := filepath.Join(out, name)
-						if err := os.MkdirAll(dir, 0o755); err != nil {
-							panic(err)
-						}
-						if err := os.WriteFile(filepath.Join(dir, "rt.go"), code, 0o644); err != nil {
-							panic(err)
-						}
+						vs = append(vs, variant{name, nolint, opt, bl, st, lrMode})
 					}
 				}
 			}
 		}
 	}
+	// build: a failure or a panic of the real builder on a probe grammar is recorded (FAILURES.txt) and the other
+	// variants are still built
+	build := func(v variant) (code []byte, err error) {
+		defer func() {
+			if r := recover(); r != nil {
+				err = fmt.Errorf("PANIC in builder.BuildParser / imports.Process: %v", r)
+			}
+		}()
+		var buf bytes.Buffer
+		buf.WriteString("package rt\n")
+		g := probe(v.st, v.lrMode == 1)
+		if err := builder.BuildParser(&buf, g,
+			builder.Optimize(v.opt), builder.BasicLatinLookupTable(v.bl),
+			builder.SupportLeftRecursion(v.lrMode != 0), builder.Nolint(v.nolint)); err != nil {
+			return nil, fmt.Errorf("BuildParser: %v", err)
+		}
+		// same options as /repo/main.go
+		code, err = imports.Process("filename", buf.Bytes(), &imports.Options{TabWidth: 8, TabIndent: true, Comments: true, Fragment: true})
+		if err != nil {
+			return nil, fmt.Errorf("imports.Process: %v", err)
+		}
+		return code, nil
+	}
+	if err := os.MkdirAll(out, 0o755); err != nil {
+		panic(err)
+	}
+	var failures, rebuilt bytes.Buffer
+	first := map[string][]byte{}
+	for _, v := range vs {
+		code, err := build(v)
+		if err != nil {
+			fmt.Fprintf(&failures, "%s\t%s\n", v.name, strings.ReplaceAll(err.Error(), "\n", " | "))
+			continue
+		}
+		first[v.name] = code
+		dir := filepath.Join(out, v.name)
+		if err := os.MkdirAll(dir, 0o755); err != nil {
+			panic(err)
+		}
+		if err := os.WriteFile(filepath.Join(dir, "rt.go"), code, 0o644); err != nil {
+			panic(err)
+		}
+	}
+	// second pass in the same process (C19: repeated builds inside one process are byte-identical)
+	for _, v := range vs {
+		if first[v.name] == nil {
+			continue
+		}
+		code, err := build(v)
+		if err != nil {
+			fmt.Fprintf(&rebuilt, "%s\tsecond build failed: %s\n", v.name, strings.ReplaceAll(err.Error(), "\n", " | "))
+		} else if !bytes.Equal(code, first[v.name]) {
+			fmt.Fprintf(&rebuilt, "%s\tsecond build of the same grammar and options in one process differs: %d bytes, first build %d bytes\n", v.name, len(code), len(first[v.name]))
+		}
+	}
+	os.WriteFile(filepath.Join(out, "FAILURES.txt"), failures.Bytes(), 0o644)
+	os.WriteFile(filepath.Join(out, "REBUILD.txt"), rebuilt.Bytes(), 0o644)
+	var names []string
+	for _, v := range vs {
+		names = append(names, v.name)
+	}
+	os.WriteFile(filepath.Join(out, "VARIANTS.txt"), []byte(strings.Join(names, "\n")+"\n"), 0o644)
 }
